@@ -149,10 +149,76 @@ func buildOps() []hop {
 	refusedOCRA("ocra-refused-counter-9", "OCRA-1:HOTP-SHA1-6:C-QN08", otp.OCRAInput{Challenge: []byte("12345678"), Counter: make([]byte, 9)})
 	ss, ls := shortShape(), longShape()
 	sin, lin := admissible(ss, 0), admissible(ls, 4)
+	// composite operations: dozens of calls in a row on one thread, for the scenarios in which ONE other call is paused
+	// at each of its statements meanwhile (whatever is handed round - ring slots, sequence numbers, cache entries -
+	// comes round again while the paused call still relies on it)
+	{
+		var want []string
+		for k := 0; k < 90; k++ {
+			want = append(want, ref.HOTP(hopKey, uint64(1000+k), 6+k%3, k%3))
+		}
+		ops = append(ops, hop{"many-hotp-90", func() (string, []string) {
+			var got []string
+			for k := 0; k < 90; k++ {
+				c, err := otp.GenerateHOTP(hopSec, uint64(1000+k), &otp.Param{Digits: otp.Digits(6 + k%3), Algorithm: otp.Algorithm(k % 3)})
+				if err != nil {
+					c += "!" + errStr(err)
+				}
+				got = append(got, c)
+			}
+			return strings.Join(got, ","), got[:3]
+		}, strings.Join(want, ",")})
+		tmiss := "000000"
+		for n := 1; inSet(tmiss, hotpWindow(hopKey, ref.Step(1111111109, 30), 10, 6, 0)); n++ {
+			tmiss = fmt.Sprintf("%06d", n)
+		}
+		ops = append(ops, hop{"many-totp-validate-miss-x5", func() (string, []string) {
+			out := ""
+			for k := 0; k < 5; k++ {
+				ok, err := otp.ValidateTOTP(hopSec, tmiss, time.Unix(1111111109, 0), &otp.Param{Digits: 6, Period: 30, Skew: 10})
+				out += fmt.Sprint(ok, "|", err != nil, ";")
+			}
+			return out, nil
+		}, strings.Repeat("false|true;", 5)})
+		var owant []string
+		var oins []oin
+		for k := 0; k < 70; k++ {
+			in := admissible(ss, k)
+			oins = append(oins, in)
+			owant = append(owant, ref.OCRA(hopKey, ss.ref(), in.ref()))
+		}
+		ops = append(ops, hop{"many-ocra-70", func() (string, []string) {
+			var got []string
+			for k := 0; k < 70; k++ {
+				c, err := otp.GenerateOCRA(hopSec, ss.lib(), oins[k].lib())
+				if err != nil {
+					c += "!" + errStr(err)
+				}
+				got = append(got, c)
+			}
+			return strings.Join(got, ","), got[:3]
+		}, strings.Join(owant, ",")})
+	}
 	ops = append(ops, hop{"ocra-short", func() (string, []string) {
 		s, err := otp.GenerateOCRA(hopSec, ss.lib(), sin.lib())
 		return s + "|" + errStr(err), []string{s}
 	}, ref.OCRA(hopKey, ss.ref(), sin.ref()) + "|<nil>"})
+	// suites whose text is a proper EXTENSION of the short suite's text (and the short one a proper prefix of theirs):
+	// whatever an earlier call leaves behind keyed or recognised by the suite text must not be taken for the other's
+	for _, x := range []struct {
+		name string
+		sh   shape
+	}{
+		{"ocra-short-ext-P", shape{Text: "OCRA-1:HOTP-SHA1-6:QN08-PSHA1", Hash: 0, Digits: 6, Q: true, QF: 1, P: true, PH: 1}},
+		{"ocra-short-ext-T", shape{Text: "OCRA-1:HOTP-SHA1-6:QN08-T1M", Hash: 0, Digits: 6, Q: true, QF: 1, T: true, TS: 60}},
+	} {
+		x := x
+		xin := admissible(x.sh, 0)
+		ops = append(ops, hop{x.name, func() (string, []string) {
+			s, err := otp.GenerateOCRA(hopSec, x.sh.lib(), xin.lib())
+			return s + "|" + errStr(err), []string{s}
+		}, ref.OCRA(hopKey, x.sh.ref(), xin.ref()) + "|<nil>"})
+	}
 	ops = append(ops, hop{"ocra-long", func() (string, []string) {
 		s, err := otp.GenerateOCRA(hopSec, ls.lib(), lin.lib())
 		return s + "|" + errStr(err), []string{s}
